@@ -37,6 +37,7 @@ typedef struct {
     unsigned char *t; size_t tlen;      /* second byte-string argument */
     int nf; int f[OP_MAXFAULT];         /* fault script attached to this op */
     int fpos[FC_NMAX];                     /* per call-kind cursor, runtime */
+    int frep[FC_NMAX];                     /* how often the fault in front of the cursor has been repeated (EINTR/EAGAIN bursts), runtime */
 } op_t;
 typedef struct {
     char prop[8];
